@@ -1,4 +1,5 @@
 import Xsm.Proofs.SelSound
+import Xsm.Properties.C11
 /-!
 # C01 — the active configuration is always a legal statechart configuration
 
@@ -9,9 +10,14 @@ active child, an active parallel state has every non-history child active.
 
 Hypotheses: `WF` (sibling keys distinct, kinds consistent with children), `InitOK` (a compound
 state with children names an existing non-history initial child — what the library itself checks
-when the state is entered), `TargetsOK` (every declared transition is target-less or resolves to a
-state that is neither a history pseudo-state nor the root: those two target kinds are covered by
-the correspondence check and the monitor, not yet by a theorem).
+when the state is entered), `TargetsOK` (every declared transition is target-less, or resolves to a
+state that is not a history pseudo-state — the machine root included).
+History targets: `legal_microstep_history` covers a history target fired while the history state's
+parent is inactive (the documented "resume" use, C11's scope) under `HistNodeOK` (the history node's
+default target, if any, lies below its parent and is not itself a history node; a parallel parent has
+a real region); it is a per-transition theorem, because whether the parent is active is a property
+of the run, not of the machine. A history target fired from INSIDE its parent, and the three
+degenerate shapes `HistNodeOK` excludes, are covered by the correspondence check and the monitor only.
 -/
 namespace XSM.C01
 open XSM XSM.Spec
@@ -23,6 +29,15 @@ theorem legal_microstep (h : Hooks) (hok : HooksOK h) (fl : Flavor) (m : Machine
     (hc : CandOK m c) (hsrc : c.src ∈ s.cfg) :
     Legal m.root (execute h fl m ev (planTransition m s.cfg s.hist c) s).cfg :=
   XSM.legal_microstep h hok fl m ev c s hwf hi hl hc hsrc
+
+/-- a transition to a history pseudo-state, fired while the history state's parent is inactive:
+    the restored (or default) configuration is legal — or the transition failed and nothing changed -/
+theorem legal_microstep_history (h : Hooks) (hok : HooksOK h) (fl : Flavor) (m : Machine) (ev : Ev)
+    (c : Cand) (s : St) (hh : Path) (hn : SNode) (hf : Hist.HistFire m s c hh hn)
+    (hI : ∀ R, Hist.histGet s.hist hh.dropLast = some R → R ≠ [] → HistInv m.root hh.dropLast R)
+    (hOK : Hist.HistNodeOK m hh) :
+    Legal m.root (execute h fl m ev (planTransition m s.cfg s.hist c) s).cfg :=
+  XSM.C11.legal_microstep_history h hok fl m ev c s hh hn hf hI hOK
 
 /-- a failed transition (missing action or service, unresolvable target, failing entry) leaves the
     configuration exactly as it was -/
